@@ -26,6 +26,10 @@ EXTRA = {
     'directive': ['>>> # xdoctest: +ELLIPSIS', '>>> x9 = 1  # xdoctest: +SKIP'],
     'disabled2nd': None,       # a second, force-disabled doctest in the module
     'second': None,            # a second enabled doctest in the module
+    'starimport_mid': None,    # a star import after the first item (i.e. after its want, if it has one)
+    'starimport_end': None,    # a star import as the last statement
+    'twoblocks': None,         # a second Example block in the same docstring + a function named f_1
+    'method': None,            # a class K with a method m + a function named K_m
 }
 
 
@@ -79,6 +83,11 @@ class DumpSpec(c01.ProgSpec):
         doc = list(b['doc_lines'])
         if EXTRA.get(extra):
             doc = EXTRA[extra] + doc
+        elif extra == 'starimport_mid':
+            n1 = len(progs.build((0, False), items[:1])['doc_lines'])
+            doc = doc[:n1] + ['>>> from os.path import *'] + doc[n1:]
+        elif extra == 'starimport_end':
+            doc = doc + ['>>> from os.path import *']
         q = '"""' if "'''" in '\n'.join(doc) else "'''"
         body = '\n'.join(('        ' + l) if l else '' for l in doc)
         src = 'def f():\n    r%s\n    Example:\n%s\n    %s\n' % (q, body, q)
@@ -88,6 +97,14 @@ class DumpSpec(c01.ProgSpec):
         elif extra == 'second':
             src += '\n\ndef g():\n    """\n    Example:\n        >>> zz = 1\n        >>> print(zz)\n        1\n    """\n'
             n_enabled = 2
+        elif extra == 'twoblocks':
+            src = src.rstrip('\n')[:-3].rstrip() + '\n\n    Example:\n        >>> zz = 2\n    ' + q + '\n'
+            src += '\n\ndef f_1():\n    """\n    Example:\n        >>> zz = 3\n    """\n'
+            n_enabled = 3
+        elif extra == 'method':
+            src += ('\n\nclass K:\n    def m(self):\n        """\n        Example:\n            >>> zz = 4\n        """\n'
+                    '\n\ndef K_m():\n    """\n    Example:\n        >>> zz = 5\n    """\n')
+            n_enabled = 3
         case = {'module': src}
         atoms = []
         nontrivial = len(b['stmts']) >= 2 or bool(b['wants'])
